@@ -128,6 +128,11 @@ def lexGo : Nat → List Char → Option (List LTok)
 
 def lex (s : List Char) : Option (List LTok) := lexGo (s.length + 1) s
 
+/-- the next token must be the symbol `c` -/
+def expectSym (c : Char) : List LTok → Option (List LTok)
+  | .sym d :: rest => if d = c then some rest else none
+  | _ => none
+
 def levelOps : Nat → List (Char × BinOp)
   | 1 => [('+', .add), ('-', .sub)]
   | 2 => [('*', .mul), ('/', .div)]
@@ -160,30 +165,20 @@ mutual
     | fuel + 1, ts =>
       match ts with
       | .num ds :: rest => some (.lit ds, rest)
-      | .sym '(' :: rest =>
-        match parseLevel fuel 1 rest with
-        | some (t, .sym ')' :: rest') => some (.grp t, rest')
-        | _ => none
+      | .sym c :: rest =>
+        if c = '(' then
+          (parseLevel fuel 1 rest).bind fun p => (expectSym ')' p.2).map fun r => (.grp p.1, r)
+        else none
       | .id x :: rest =>
         if x = kwIsqrt then
-          match rest with
-          | .sym '(' :: rest1 =>
-            match parseLevel fuel 1 rest1 with
-            | some (a, .sym ')' :: rest2) => some (.isqrt a, rest2)
-            | _ => none
-          | _ => none
+          (expectSym '(' rest).bind fun r1 => (parseLevel fuel 1 r1).bind fun p =>
+            (expectSym ')' p.2).map fun r => (.isqrt p.1, r)
         else if x = kwMin || x = kwMax then
-          match rest with
-          | .sym '(' :: rest1 =>
-            match parseLevel fuel 1 rest1 with
-            | some (a, .sym ',' :: rest2) =>
-              match parseLevel fuel 1 rest2 with
-              | some (b, .sym ')' :: rest3) => some (.fn2 (if x = kwMin then .min else .max) a b, rest3)
-              | _ => none
-            | _ => none
-          | _ => none
+          (expectSym '(' rest).bind fun r1 => (parseLevel fuel 1 r1).bind fun pa =>
+            (expectSym ',' pa.2).bind fun r2 => (parseLevel fuel 1 r2).bind fun pb =>
+              (expectSym ')' pb.2).map fun r => (.fn2 (if x = kwMin then .min else .max) pa.1 pb.1, r)
         else some (.var x, rest)
-      | _ => none
+      | [] => none
 end
 
 /-- an expression of the grammar, completely consumed -/
